@@ -28,7 +28,7 @@ func c19Run(c *ev.Ctx) {
 var C19 = &ev.Property{
 	ID:    "C19",
 	Level: "exploration",
-	Rule: "part B: a sequence of 1-200 observations under a controllable clock (steps 0, 1ns, period-1ns, period, period+1ns, 1s, 3h, occasionally backwards) and a random constraint setting (MinConfidence 0/0.3/0.65/0.7/1, stability period 0/1ns/30s/1h, allowed list nil/empty/singleton/pair/all/3-6 entries with repeats drawn from one or two modes, sometimes with a value that is no mode), driven three ways: scripted strategy through ConfigSelector, rule-based strategy on random features incl. file-size thresholds ±1 and NaN ratios, and SmartRebalancer.Evaluate over a WorkloadDetector fed bursts of operations; every returned decision is checked against a reference gate model (allowed, confidence fallback, confidence range, no mode invented, no mode change within the stability period on a non-decreasing clock). " +
+	Rule: "part B: a sequence of 1-200 observations under a controllable clock (steps 0, 1ns, period-1ns, period, period+1ns, 1s, 3h, occasionally backwards) and a random constraint setting (MinConfidence 0/0.3/0.65/0.7/1, stability period 0/1ns/30s/1h, allowed list nil/empty/singleton/pair/all/3-6 entries with repeats drawn from one or two modes, sometimes with a value that is no mode), driven three ways: scripted strategy through ConfigSelector, rule-based strategy on random features incl. file-size thresholds ±1, NaN ratios and (one observation in three) a bursty workload in the 500 MiB-1 GiB band where the rules choose incremental rebalancing, and SmartRebalancer.Evaluate over a WorkloadDetector fed bursts of operations; every returned decision is checked against a reference gate model (allowed, confidence fallback, confidence range, no mode invented, no mode change within the stability period on a non-decreasing clock; a permitted mode returned in place of a refused one counts as a decision that passed both gates). " +
 		"part A: twin runs of one attribute history under a rebalancing configuration and under the default configuration; the logical dumps of the reopened files must be equal. " +
 		"part C: twin runs of one insert/update/delete-by-name history on the name index (version 2 B-tree, node sizes 128/512/4096/default so that the single leaf reaches its capacity) in the default configuration and under immediate / lazy (threshold 0.001-1, delay 1ns-1h, batch 1-100) / incremental (interval 1us-1ms, budget 1us-1ms) rebalancing with toggles (force, rebalance all, disable, enable again) at random points: the outcome of every call, the records after every step and the records reloaded after WriteToFile must be equal. " +
 		"non-trivial: >=2 observations (B) / history crossing into dense storage or with deletes (A); distinct = constraint setting + outcome-count descriptor (B), configuration + history shape (A).",
